@@ -332,88 +332,158 @@ def strict_sample(ctx: Ctx) -> None:
 # ---------------------------------------------------------------------------------------------
 # second part: facet pairs and attribute-use pairs (real verdict vs a direct subset test on a catalogue)
 
-KNOWN_ATTR = 'C14-F1'
-P2_HEAD = (f'<xs:schema xmlns:xs="{cm.XSD}" targetNamespace="urn:t" xmlns:t="urn:t" elementFormDefault="qualified">')
+# ---------------------------------------------------------------------------------------------
+# attribute uses and attribute wildcards (harness/lib_c14attrs.py): the restriction check and the derived
+# type's attribute group vs the Lean port; validity of attribute sets vs the C03 model; the property
 
-
-def facet_schema(prim: str, fb: str, vb: int, fd: str, vd: int) -> str:
-    return (P2_HEAD + f'<xs:simpleType name="B"><xs:restriction base="xs:{prim}"><xs:{fb} value="{vb}"/></xs:restriction>'
-            f'</xs:simpleType><xs:simpleType name="D"><xs:restriction base="t:B"><xs:{fd} value="{vd}"/></xs:restriction>'
-            '</xs:simpleType><xs:element name="eb" type="t:B"/><xs:element name="ed" type="t:D"/></xs:schema>')
-
-
-def attr_schema(b: tuple, d: tuple) -> str:
-    def attr(use, fixed, typ, ns):
-        a = '' if use is None else (f'<xs:attribute name="a" type="xs:{typ}" use="{use}"'
-                                    + (f' fixed="{fixed}"' if fixed is not None else '') + '/>')
-        return a + ('' if ns is None else f'<xs:anyAttribute namespace="{ns}" processContents="lax"/>')
-    return (P2_HEAD + f'<xs:complexType name="B">{attr(*b)}</xs:complexType><xs:complexType name="D"><xs:complexContent>'
-            f'<xs:restriction base="t:B">{attr(*d)}</xs:restriction></xs:complexContent></xs:complexType>'
-            '<xs:element name="eb" type="t:B"/><xs:element name="ed" type="t:D"/></xs:schema>')
-
-
-def attr_known_match(case: dict, detail: dict) -> Optional[str]:
-    """C14-F2: the derived type prohibits `a` (declared by the base) but keeps a wildcard that admits the name:
-    a prohibited use is no attribute use at all (XSD structures 3.2.2), so the attribute is validated through
-    the wildcard (lax: no global declaration -> any value) while the base demands the declared type.
-    (C14-F1, a prohibited base attribute re-admitted, is fixed in /repo: it has no match rule any more.)"""
-    b, d = case['base'], case['derived']
-    if d[0] == 'prohibited' and b[0] in ('optional', 'required') and d[3] in ('##any', '##local') \
-            and 'a' in detail['attributes']:
-        return 'C14-F2'
+def attr_known_match(info: dict, attrs: list, g: dict) -> Optional[str]:
+    """The three known ways in which an accepted restriction widens the admitted attribute sets, each identified
+    by the attribute carried by the failing instance (the guards of attr_restriction_sound_partial, evaluated here
+    on the introspected groups; `g` = the same guards evaluated by the Lean driver, None without Lean):
+      C14-F2  the restriction prohibits an attribute that the base declares (not prohibited) and the derived
+              type's wildcard admits the name
+      C14-F4  the restriction redeclares the attribute with type xs:anySimpleType over another base type
+      C14-F5  the restriction declares an attribute that the base admits through its wildcard only, and that
+              wildcard assesses it (strict, or lax with a global declaration)"""
+    B, D, M = info['B'], info['D'], info['M']
+    bd = {tuple(d['n']): d for d in B['decls']}
+    dd = {tuple(d['n']): d for d in D['decls']}
+    any_simple = info['tables']['anySimple']
+    globs = {tuple(x['n']) for x in info['globals']}
+    for name, _ in attrs:
+        q = tuple(qn14(name))
+        d, b = dd.get(q), bd.get(q)
+        if d is None:
+            continue
+        if d['use'] == 'prohibited':
+            if b is not None and b['use'] != 'prohibited' and M['any'] is not None and (g is None or g['g2'] is False):
+                return 'C14-F2'
+            continue
+        if b is not None and b['use'] != 'prohibited':
+            if d['ty'] in any_simple and b['ty'] not in any_simple and (g is None or g['g1'] is False):
+                return 'C14-F4'
+            continue
+        bw = B['any']
+        if bw is not None and (bw['pc'] == 'strict' or (bw['pc'] == 'lax' and q in globs)) \
+                and (g is None or g['g3'] is False):
+            return 'C14-F5'
     return None
 
 
-def second_part(ctx: Ctx) -> None:
-    import itertools
-    import xmlschema
+def qn14(name: str) -> list:
+    from harness import lib_c14attrs as ax
+    return ax.qn(name)
+
+
+def attr_pair(ctx: Ctx, v11: bool, b: dict, d: dict, cat: list, fam: str) -> Optional[tuple]:
+    """build one pair; returns (request, pending record) or None"""
+    from harness import lib_c14attrs as ax
+    case = {'v': '1.1' if v11 else '1.0', 'base': b, 'derived': d}
+    schema = ax.build(b, d, v11)
+    errs, other = ax.restriction_errors(schema)
+    info = ax.introspect(schema)
+    fixed_values = sorted({x['fixed'] for g in (info['B'], info['D']) for x in g['decls'] if x['fixed'] is not None})
+    values = sorted({v for a in cat for _, v in a} | set(fixed_values) |
+                    {x['default'] for g in (info['B'], info['M']) for x in g['decls'] if x['default'] is not None} |
+                    {x[k] for x in info['globals'] for k in ('fixed', 'default') if x[k] is not None})
+    info['tables'] = info['types'].tables(values, fixed_values)
+    vd = [ax.valid_instance(schema, 'ed', a) for a in cat]
+    vb = [ax.valid_instance(schema, 'eb', a) for a in cat]
+    ctx.count(f'attrs:{fam}:accepted={not errs and not other}')
+    for e in errs:
+        ctx.count('attrs:error:' + e[0])
+    req = {'op': 'attrs', 'B': info['B'], 'D': info['D'], 'globals': info['globals'], 'loaded': info['loaded'],
+           'anyExempt': ATTR_MODE['anyExempt'],
+           'cases': [[[ax.qn(n), v] for n, v in a] for a in cat], **info['tables']}
+    return req, (case, schema, errs, other, info, vd, vb)
+
+
+ATTR_MODE = {'anyExempt': True}      # set by detect_attr_mode: pinned exemption (C14-F4) or the repaired rule
+
+
+def detect_attr_mode(ctx: Ctx) -> None:
+    """which type-derivation rule the tree under check implements (the witness of C14-F4 decides): the model
+    follows, so that applying notes/fixes/C14-anysimpletype-attribute-exemption.patch keeps the check green"""
+    from harness import lib_c14attrs as ax
+    s = ax.build({'decls': [('a', 'optional', None, 'xs:int', None)], 'any': None},
+                 {'decls': [('a', 'optional', None, None, None)], 'any': None}, False)
+    ATTR_MODE['anyExempt'] = not s.all_errors
+    ctx.extra['attr_type_rule'] = 'pinned (xs:anySimpleType exempt)' if ATTR_MODE['anyExempt'] else 'repaired'
+
+
+def attrs_family(ctx: Ctx, drv: Optional[Driver]) -> None:
+    from harness import lib_c14attrs as ax
     rng = ctx.rng
-    classes = (('1.0', xmlschema.XMLSchema10), ('1.1', xmlschema.XMLSchema11))
+    detect_attr_mode(ctx)
+    sysp = ax.systematic_pairs()
+    cat = ax.catalogue(rng, 6)
+    for v11 in (False, True):
+        pairs = [('systematic', b, d) for b, d in rng.sample(sysp, ctx.pick(200, 2500))]
+        for _ in range(ctx.pick(300, 3000)):
+            b = ax.gen_base(rng, v11)
+            pairs.append(('random', b, ax.gen_derived(rng, b, v11)))
+        for k in range(0, len(pairs), 50):
+            reqs, pend = [], []
+            for fam, b, d in pairs[k:k + 50]:
+                try:
+                    r = attr_pair(ctx, v11, b, d, cat, fam)
+                except Exception as e:            # the build itself must not raise in lax mode
+                    ctx.failure('schema build raised on an attribute restriction pair',
+                                {'v': '1.1' if v11 else '1.0', 'base': b, 'derived': d}, repr(e)[:300])
+                    continue
+                reqs.append(r[0])
+                pend.append((fam,) + r[1])
+            answers = drv.query(reqs) if drv is not None and reqs else [None] * len(reqs)
+            for (fam, case, schema, errs, other, info, vd, vb), ans in zip(pend, answers):
+                attr_judge(ctx, fam, case, errs, other, info, vd, vb, cat, ans)
 
-    def judge(schema, kind, case, instances):
-        ctx.case(case, True, tag=kind)
-        accepted = not schema.all_errors
-        ctx.count(f'{kind}:accepted={accepted}')
-        if not accepted:
+
+def attr_judge(ctx: Ctx, fam: str, case: dict, errs: list, other: list, info: dict, vd: list, vb: list,
+               cat: list, ans: Optional[dict]) -> None:
+    from harness import lib_c14attrs as ax
+    ctx.case(case, True, tag=f"{case['v']}/attrs-{fam}")
+    accepted = not errs and not other
+    g = None
+    if ans is not None and 'err' in ans:
+        ctx.mismatch('driver error (attrs)', case, None, ans)
+        ans = None
+    if ans is not None:
+        g = {k: ans[k] for k in ('g1', 'g2', 'g3')}
+        ctx.traces += 1
+        if ax.canon_model_errs(ans['errs']) != errs:
+            ctx.mismatch('attribute restriction check: port vs implementation', case, errs, ans['errs'])
+        ctx.traces += 1
+        if ax.canon_group(ans['merged']) != ax.canon_group(info['M']):
+            ctx.mismatch('attribute group of the derived type: port vs implementation', case,
+                         ax.canon_group(info['M']), ax.canon_group(ans['merged']))
+        if not other:          # value constraints and the rest of the schema are well-formed
+            ctx.traces += 2
+            if ans['validD'] != vd:
+                bad = [a for a, x, y in zip(cat, vd, ans['validD']) if x != y]
+                ctx.mismatch('validity for the derived type: C03 model on the merged group vs implementation',
+                             dict(case, attrs=bad[:3]), vd, ans['validD'])
+            if ans['validB'] != vb:
+                bad = [a for a, x, y in zip(cat, vb, ans['validB']) if x != y]
+                ctx.mismatch('validity for the base type: C03 model vs implementation', dict(case, attrs=bad[:3]),
+                             vb, ans['validB'])
+            # the instance of attr_restriction_sound_partial inside the model
+            if not ans['errs'] and all(g.values()):
+                ctx.count('attrs:theorem-instance-checked')
+                if any(x and not y for x, y in zip(ans['validD'], ans['validB'])):
+                    ctx.mismatch('attr_restriction_sound_partial contradicted inside the model', case, None, ans)
+    if not accepted:
+        return
+    for a, x, y in zip(cat, vd, vb):
+        if x and not y:
+            detail = {'attributes': [list(p) for p in a], 'valid_for_derived': True, 'valid_for_base': False,
+                      'guards': g}
+            fid = attr_known_match(info, a, g)
+            if fid:
+                ctx.known_hit(fid, case, detail)
+                ctx.count('attrs:known:' + fid)
+            else:
+                ctx.failure('accepted restriction admits an attribute set that the base type rejects', case, detail)
             return
-        ed, eb = schema.elements['ed'], schema.elements['eb']
-        for text, attrs in instances:
-            e1 = c14.ET.Element('{urn:t}ed', attrs)
-            e2 = c14.ET.Element('{urn:t}eb', attrs)
-            e1.text = e2.text = text
-            if ed.is_valid(e1) and not eb.is_valid(e2):
-                detail = {'text': text, 'attributes': attrs, 'valid_for_derived': True, 'valid_for_base': False}
-                fid = attr_known_match(case, detail) if kind == 'attribute-pairs' else None
-                if fid:
-                    ctx.known_hit(fid)
-                    ctx.count('known-attribute-readmitted')
-                else:
-                    ctx.failure('accepted restriction admits an instance that the base type rejects', case, detail)
-                return
-
-    bounds = ['minInclusive', 'maxInclusive', 'minExclusive', 'maxExclusive']
-    lens = ['length', 'minLength', 'maxLength']
-    fpairs = [('integer', fb, vb, fd, vd) for fb, fd in itertools.product(bounds, repeat=2)
-              for vb, vd in itertools.product([-1, 0, 1, 2, 5], repeat=2)]
-    fpairs += [('string', fb, vb, fd, vd) for fb, fd in itertools.product(lens, repeat=2)
-               for vb, vd in itertools.product([0, 1, 2, 3], repeat=2)]
-    ints = [(str(v), {}) for v in range(-4, 9)]
-    strs = [('x' * n, {}) for n in range(0, 6)]
-    for v, cls in classes:
-        for prim, fb, vb, fd, vd in (fpairs if not ctx.quick() else rng.sample(fpairs, 250)):
-            case = {'v': v, 'facets': [prim, fb, vb, fd, vd]}
-            judge(cls(facet_schema(prim, fb, vb, fd, vd), validation='lax'), 'facet-pairs', case,
-                  ints if prim == 'integer' else strs)
-    specs = [(u, f, t, n) for u in (None, 'optional', 'required', 'prohibited') for f in (None, '1', '2')
-             for t in ('integer', 'string') for n in (None, '##any', '##other', '##local', 'urn:o')
-             if not (u is None and (f is not None or t != 'integer')) and not (u == 'prohibited' and f is not None)]
-    apairs = [(b, d) for b in specs for d in specs]
-    cat = [{}, {'a': '1'}, {'a': '2'}, {'a': 'x'}, {'{urn:o}z': '1'}, {'a': '1', '{urn:o}z': '1'}, {'q': '1'},
-           {'{urn:t}w': '1'}]
-    for v, cls in classes:
-        for b, d in rng.sample(apairs, ctx.pick(400, 4000)):
-            case = {'v': v, 'base': list(b), 'derived': list(d)}
-            judge(cls(attr_schema(b, d), validation='lax'), 'attribute-pairs', case, [(None, a) for a in cat])
 
 
 # ---------------------------------------------------------------------------------------------
